@@ -411,3 +411,154 @@ Proof.
   specialize (IH ltac:(intros; apply H; right; assumption)). specialize (H v ltac:(left; reflexivity)).
   destruct (dynamic t); lia.
 Qed.
+
+(* ---------- building all_ok from the induction hypotheses ---------- *)
+Lemma items_bound items : zlen (head_tail items) < 2 ^ 32 -> Forall (fun it => zlen (snd it) < 2 ^ 32) items.
+Proof.
+  intros H. rewrite head_tail_length in H. apply Forall_forall. intros [d e] Hin.
+  pose proof (item_le items d e Hin). simpl. lia.
+Qed.
+
+Lemma all_ok_tuple block cs :
+  Forall (fun c => good c = true -> elem_goal block c) cs -> Forall (fun c => good c = true) cs ->
+  forall vs, tuple_wt (map ty_of cs) vs = true ->
+    Forall (fun it => zlen (snd it) < 2 ^ 32) (tuple_items (map ty_of cs) vs) ->
+    forallb counts_ok vs = true ->
+    all_ok block (map (decodeABIElement block) cs) (tuple_items (map ty_of cs) vs) (tuple_cvs cs vs).
+Proof.
+  induction 1 as [|c cs Hc _ IH]; intros Hg vs Hwt Hb Hcnt.
+  - destruct vs; [constructor|discriminate].
+  - destruct vs as [|v vs]; [discriminate|].
+    inversion Hg as [|? ? Hgc Hgr]; subst.
+    cbn [map tuple_wt tuple_items tuple_cvs forallb] in *.
+    apply andb_true_iff in Hwt as [Hv Hvs]. apply andb_true_iff in Hcnt as [Hcv Hcvs].
+    inversion Hb as [|? ? Hb1 Hb2]; subst. simpl in Hb1.
+    constructor.
+    + apply (Hc Hgc v Hv). split; assumption.
+    + apply IH; assumption.
+Qed.
+
+Lemma all_ok_array block ch :
+  elem_goal block ch ->
+  forall vs, forallb (well_typed (ty_of ch)) vs = true ->
+    Forall (fun it => zlen (snd it) < 2 ^ 32) (array_items (ty_of ch) vs) ->
+    forallb counts_ok vs = true ->
+    all_ok block (repeat (decodeABIElement block ch) (length vs)) (array_items (ty_of ch) vs) (map (cv_of ch) vs).
+Proof.
+  intros Hc. induction vs as [|v vs IH]; intros Hwt Hb Hcnt; [constructor|].
+  cbn [forallb array_items map length repeat] in *. fold (array_items (ty_of ch) vs) in *.
+  apply andb_true_iff in Hwt as [Hv Hvs]. apply andb_true_iff in Hcnt as [Hcv Hcvs].
+  inversion Hb as [|? ? Hb1 Hb2]; subst. simpl in Hb1.
+  constructor.
+  - apply (Hc v Hv). split; assumption.
+  - apply IH; assumption.
+Qed.
+
+Lemma tails_static_tlen items : all_static items -> tlen items = 0.
+Proof. intros H. rewrite <- tails_length, tails_static by exact H. reflexivity. Qed.
+
+(* embedded head_tail: the heads at the start, the tails right after them *)
+Lemma embedded_head_tail block off items :
+  embedded block off (head_tail items) ->
+  embedded block off (heads (hlen items) items) /\ embedded block (off + hlen items) (tails items).
+Proof.
+  unfold head_tail. rewrite head_len_hlen. intros H. apply embedded_app in H. rewrite heads_length in H. exact H.
+Qed.
+
+Lemma good_isDynamic c : good c = true -> isDynamicType c = dynamic (ty_of c).
+Proof.
+  unfold good. rewrite !andb_true_iff. intros [[[H1 _] _] H2]. apply isDynamicType_dynamic; assumption.
+Qed.
+
+Lemma counts_list vs : counts_ok (VList vs) = true -> Z.of_nat (length vs) < 2 ^ 32 /\ forallb counts_ok vs = true.
+Proof. cbn [counts_ok]. rewrite andb_true_iff. intros [H1 H2]. split; [lia|exact H2]. Qed.
+
+(* ---------- the element theorem ---------- *)
+Theorem decodeABIElement_enc block c : good c = true -> elem_goal block c.
+Proof.
+  induction c as [e s m n k|len ch k IH|ch k IH|l k IH] using tcomp_ind'; intros Hg.
+  - apply elem_elementary. exact Hg.
+  - (* T[k] *)
+    destruct (good_fixed _ _ _ Hg) as [Hgc Hlen]. specialize (IH Hgc).
+    intros v Hwt [Hsz Hcnt]. pose proof (good_isDynamic _ Hg) as Hdyn.
+    cbn [ty_of] in *. destruct v as [| |vs]; cbn [well_typed] in Hwt; try discriminate.
+    apply andb_true_iff in Hwt as [Hl Hall]. apply N.eqb_eq in Hl.
+    assert (Hn : Z.to_nat len = length vs) by lia.
+    cbn [enc] in *. fold (array_items (ty_of ch) vs) in *.
+    destruct (counts_list _ Hcnt) as [_ Hcs].
+    pose proof (all_ok_array block ch IH vs Hall (items_bound _ Hsz) Hcs) as Hok.
+    change (cv_of (TCFixedArr len ch k) (VList vs)) with (CV (Some (TCFixedArr len ch k)) (map (cv_of ch) vs) GNil).
+    cbn [dynamic] in *. destruct (dynamic (ty_of ch)) eqn:Ed; cbn [elem_ok].
+    + intros hs hp o Ho Hw He. rewrite dec_fixed_unfold. cbv zeta. rewrite Hdyn.
+      rewrite (decodeABILength_word _ _ _ Hw Ho). cbn [bind].
+      replace (len <? 0) with false by (symmetry; apply Z.ltb_ge; lia).
+      unfold walkDynamicChildArrayABIBytes_rep. rewrite loop_elems_nat, loop_nat_list, Hn.
+      destruct (embedded_head_tail _ _ _ He) as [Hh Ht].
+      rewrite head_tail_length in Hsz.
+      rewrite (walk_list_ok block _ _ _ Hok (hs + o) (hs + o) (hlen (array_items (ty_of ch) vs)));
+        [reflexivity|apply hlen_nonneg|lia|exact Hh|exact Ht].
+    + intros hs hp He. rewrite dec_fixed_unfold. cbv zeta. rewrite Hdyn.
+      unfold decodeABIFixedArrayBytes.
+      replace (len <? 0) with false by (symmetry; apply Z.ltb_ge; lia).
+      rewrite loop_elems_nat, loop_nat_list, Hn.
+      pose proof (array_static_all (ty_of ch) vs Ed) as Hst.
+      rewrite head_tail_static in He by exact Hst.
+      rewrite (walk_list_static block _ _ _ Hok Hst hs hp He). cbn [bind].
+      rewrite head_tail_length, (tails_static_tlen _ Hst), Z.add_0_r. reflexivity.
+  - (* T[] *)
+    specialize (IH (good_dyn _ _ Hg)).
+    intros v Hwt [Hsz Hcnt].
+    cbn [ty_of] in *. destruct v as [| |vs]; cbn [well_typed] in Hwt; try discriminate.
+    cbn [enc] in *. fold (array_items (ty_of ch) vs) in *.
+    destruct (counts_list _ Hcnt) as [Hcl Hcs].
+    rewrite zlen_app, zlen_word in Hsz.
+    pose proof (all_ok_array block ch IH vs Hwt (items_bound _ ltac:(lia)) Hcs) as Hok.
+    change (cv_of (TCDynArr ch k) (VList vs)) with (CV (Some (TCDynArr ch k)) (map (cv_of ch) vs) GNil).
+    cbn [dynamic elem_ok]. intros hs hp o Ho Hw He.
+    rewrite dec_dyn_unfold. rewrite (decodeABILength_word _ _ _ Hw Ho). cbn [bind].
+    unfold decodeABIDynamicArrayBytes.
+    destruct (embedded_app _ _ _ _ He) as [He1 He2]. rewrite zlen_word in He2.
+    rewrite (decodeABILength_word _ _ _ He1) by lia. cbn [bind].
+    destruct (embedded_head_tail _ _ _ He2) as [Hh Ht].
+    pose proof (embedded_bound _ _ _ He2) as Hbd. rewrite head_tail_length in Hbd, Hsz.
+    pose proof (tlen_nonneg (array_items (ty_of ch) vs)) as Htn.
+    (* the count guard does not fire *)
+    assert (Hguard : (Z.of_nat (length vs) >? 0) && occupiesHeadBytes ch &&
+                     ((Z.of_nat (length vs) - 1) * 32 >=? zlen block - (hs + o + 32)) = false).
+    { destruct (occupiesHeadBytes ch) eqn:Eo; [|rewrite andb_false_r; reflexivity].
+      destruct (Z.of_nat (length vs) >? 0) eqn:Ez; [|reflexivity]. cbn [andb].
+      apply Z.geb_leb, Z.leb_gt.
+      assert (32 * Z.of_nat (length vs) <= hlen (array_items (ty_of ch) vs)).
+      { apply hlen_array_ge. intros v Hv. destruct (dynamic (ty_of ch)) eqn:Ed; [lia|].
+        unfold good in Hg. cbn [tc_consistent ty_of wf_ty] in Hg. rewrite !andb_true_iff in Hg.
+        destruct Hg as [[[Hc Hw'] _] _].
+        apply (occ_min ch Hc Hw' Eo v); [|exact Ed].
+        rewrite forallb_forall in Hwt. apply Hwt. exact Hv. }
+      lia. }
+    rewrite Hguard.
+    rewrite loop_elems_nat, loop_nat_list, Nat2Z.id.
+    rewrite (walk_list_ok block _ _ _ Hok (hs + o + 32) (hs + o + 32) (hlen (array_items (ty_of ch) vs)));
+      [reflexivity|apply hlen_nonneg|lia|exact Hh|exact Ht].
+  - (* tuples *)
+    pose proof (good_tuple _ _ Hg) as Hgl. pose proof (good_isDynamic _ Hg) as Hdyn.
+    intros v Hwt [Hsz Hcnt].
+    cbn [ty_of] in *. destruct v as [| |vs]; try (cbn [well_typed] in Hwt; discriminate).
+    rewrite well_typed_tuple in Hwt. rewrite enc_tuple in *. rewrite cv_of_tuple.
+    destruct (counts_list _ Hcnt) as [_ Hcs].
+    pose proof (all_ok_tuple block l IH Hgl vs Hwt (items_bound _ Hsz) Hcs) as Hok.
+    destruct (dynamic (TTuple (map ty_of l))) eqn:Ed; cbn [elem_ok].
+    + intros hs hp o Ho Hw He. rewrite dec_tuple_unfold. cbv zeta. rewrite Hdyn.
+      rewrite (decodeABILength_word _ _ _ Hw Ho). cbn [bind].
+      rewrite walk_children_list.
+      destruct (embedded_head_tail _ _ _ He) as [Hh Ht].
+      rewrite head_tail_length in Hsz.
+      rewrite (walk_list_ok block _ _ _ Hok (hs + o) (hs + o) (hlen (tuple_items (map ty_of l) vs)));
+        [reflexivity|apply hlen_nonneg|lia|exact Hh|exact Ht].
+    + intros hs hp He. rewrite dec_tuple_unfold. cbv zeta. rewrite Hdyn. cbn [bind].
+      rewrite walk_children_list.
+      cbn [dynamic] in Ed.
+      pose proof (tuple_static_all (map ty_of l) vs Ed) as Hst.
+      rewrite head_tail_static in He by exact Hst.
+      rewrite (walk_list_static block _ _ _ Hok Hst hs hp He). cbn [bind].
+      rewrite head_tail_length, (tails_static_tlen _ Hst), Z.add_0_r. reflexivity.
+Qed.
